@@ -197,6 +197,19 @@ def function_hoists(ctx):
                     nm = f"r{j}_{len(calls)}"
                     calls += [f"{nm} = f{j}({arg})", f"mon.write({nm})"]
         cases.append(head + "\n".join(lines + calls) + "\n")
+    # recursive helpers whose recursive call permutes differently typed arguments: every typed variant reachable from the call sites is needed
+    for body, calls in [
+        ("def mix(x, y, d):\n    if d > 0:\n        return mix(y, x, d - 1)\n    return x + y\n", ["mix(1, h, 3)", "mix(1, h, 2)", "mix(h, 1, 1)", "mix(2, 3, 1)"]),
+        ("def rot(x, y, z, d):\n    if d > 0:\n        return rot(y, z, x, d - 1)\n    return x * 100 + y * 10 + z\n", ["rot(1, h, 3, 1)", "rot(1, h, 3, 2)", "rot(1, 2, h, 4)"]),
+        ("def down(x, d):\n    if d > 0:\n        return down(x * h, d - 1)\n    return x\n", ["down(8, 2)", "down(wi, 1)", "down(h, 3)"]),
+        ("def pick(a, b, d):\n    t = a + b\n    if d > 0:\n        t = pick(b, a, d - 1)\n    return t\n", ["pick(1, h, 1)", "pick(1, h, 2)", "pick(h, 1, 1)"]),
+    ]:
+        for k in range(1, len(calls) + 1):
+            for sel in ([calls[:k]] if k < len(calls) else [calls, calls[::-1]]):
+                lines = ["h = 2.5", "wi = 3"] + body.rstrip("\n").split("\n")
+                for j, c in enumerate(sel):
+                    lines += [f"r{j} = {c}", f"mon.write(r{j})"]
+                cases.append(head + "\n".join(lines) + "\n")
     outs = [cxx.transpile(s) for s in cases]
     it = iter(cxx.run_many(ctx, [(cpp, 0, "") for cpp, e in outs if cpp is not None]))
     for src, (cpp, exc) in zip(cases, outs):
@@ -224,7 +237,7 @@ def function_hoists(ctx):
                 return a == b
         if len(py) != len(fw) or not all(eq(a, b) for a, b in zip(py, fw)):
             bad = next(((a, b) for a, b in zip(py, fw) if not eq(a, b)), (len(py), len(fw)))
-            ctx.fail("types:function-hoisted-local", f"firmware prints {bad[1]!r} where Python prints {bad[0]!r}", replay)
+            ctx.fail("types:function-recursive-variant" if "d - 1" in src else "types:function-hoisted-local", f"firmware prints {bad[1]!r} where Python prints {bad[0]!r}", replay)
 
 
 def run(ctx: Ctx) -> int:
